@@ -18,6 +18,15 @@ class Ctx:
         self.p = project
         self.tier = tier
         self.cache: dict = {}
+        from .normalize import Normalizer
+
+        # normalised views (private helpers expanded, hoisted literal constants substituted): ctx.norm.view(fn)
+        self.norm = Normalizer(project)
+
+    def view(self, spec_or_fn, inline: bool = True, consts: bool = True):
+        """FuncInfo for 'Class.method' (or a FuncInfo) in normalised form — see sa/normalize.py."""
+        fn = self.p.func(spec_or_fn) if isinstance(spec_or_fn, str) else spec_or_fn
+        return self.norm.view(fn, inline=inline, consts=consts)
 
 
 def run_rules(prop: str, tier: str, repo: str | None = None, overlay: dict | None = None):
